@@ -67,40 +67,40 @@ func c31Setup(st *State) *c31Env {
 		return c31
 	}
 	dir := filepath.Join(st.Dir, "c31")
-	must(os.MkdirAll(dir, 0o755))
+	c31Must(os.MkdirAll(dir, 0o755))
 	signer := crypto.NewKeyFromSeed(bytes.Repeat([]byte{0x31}, 64))
 	conf := fmt.Sprintf("[node]\nsigner-key = \"%s\"\nconsensus-only = true\nmemory-cache-size = 16\ncache-ttl = 7200\n[network]\nlistener = \"127.0.0.1:7239\"\n", signer.String())
-	must(os.WriteFile(dir+"/config.toml", []byte(conf), 0o644))
+	c31Must(os.WriteFile(dir+"/config.toml", []byte(conf), 0o644))
 	custom, err := config.Initialize(dir + "/config.toml")
-	must(err)
+	c31Must(err)
 	gns, err := common.ReadGenesis(filepath.Join(c31Repo(), "config", "genesis.json"))
-	must(err)
+	c31Must(err)
 	cache, err := ristretto.NewCache(&ristretto.Config[[]byte, any]{NumCounters: 1e5, MaxCost: 1 << 26, BufferItems: 64})
-	must(err)
+	c31Must(err)
 	store, err := storage.NewBadgerStore(custom, dir)
-	must(err)
-	kernel.VerifMockRunAggregators(true)
+	c31Must(err)
+	kernel.VerifC31MockRunAggregators(true)
 	node, err := kernel.SetupNode(custom, store, cache, gns)
-	must(err)
+	c31Must(err)
 	e := &c31Env{store: store, node: node}
-	e.peer = node.VerifAttachPeer()
-	ids := node.VerifWorkingAcceptedNodes(uint64(time.Now().UnixNano()))
+	e.peer = node.VerifC31AttachPeer()
+	ids := node.VerifC31WorkingAcceptedNodes(uint64(time.Now().UnixNano()))
 	if len(ids) == 0 {
 		panic("harness: c31: no working nodes")
 	}
 	for _, id := range ids {
 		if id != node.IdForNetwork {
-			e.nbrs = append(e.nbrs, e.peer.VerifAddNeighbor(id))
+			e.nbrs = append(e.nbrs, e.peer.VerifC31AddNeighbor(id))
 		}
 	}
 	e.funder = ids[0]
 	last, _ := store.LastSnapshot()
 	e.topo = last.TopologicalOrder + 1
 	asset, _, err := store.ReadAssetWithBalance(common.XINAssetId)
-	must(err)
+	c31Must(err)
 	e.assetKey = asset.AssetKey
 	e.relayer, err = p2p.NewQuicRelayer("127.0.0.1:0")
-	must(err)
+	c31Must(err)
 	e.accepted = make(chan *p2p.QuicClient, 64)
 	go func() { // one acceptor for the whole run; ops pick their own connection by address
 		for {
@@ -120,7 +120,7 @@ func c31Setup(st *State) *c31Env {
 	return e
 }
 
-func must(err error) {
+func c31Must(err error) {
 	if err != nil {
 		panic("harness: c31: " + err.Error())
 	}
@@ -137,9 +137,9 @@ func (e *c31Env) key() crypto.Key {
 
 // finalize writes tx and a snapshot carrying it into the funder's current round.
 func (e *c31Env) finalize(ver *common.VersionedTransaction) {
-	must(e.store.WriteTransaction(ver))
+	c31Must(e.store.WriteTransaction(ver))
 	round, err := e.store.ReadRound(e.funder)
-	must(err)
+	c31Must(err)
 	snap := &common.Snapshot{
 		Version:      common.SnapshotVersionCommonEncoding,
 		NodeId:       e.funder,
@@ -150,7 +150,7 @@ func (e *c31Env) finalize(ver *common.VersionedTransaction) {
 	}
 	topo := &common.SnapshotWithTopologicalOrder{Snapshot: snap, TopologicalOrder: e.topo}
 	e.topo++
-	must(e.store.WriteSnapshot(topo, []crypto.Hash{e.funder}))
+	c31Must(e.store.WriteSnapshot(topo, []crypto.Hash{e.funder}))
 }
 
 // fund finalizes a deposit transaction with nIn script outputs of nKeys fresh keys each and
@@ -178,7 +178,7 @@ func (e *c31Env) fund(nIn, nKeys int, each common.Integer) (crypto.Hash, [][]cry
 		tx.Outputs = append(tx.Outputs, out)
 	}
 	ver := tx.AsVersioned()
-	must(e.store.LockDepositInput(tx.Inputs[0].Deposit, ver.PayloadHash(), false))
+	c31Must(e.store.LockDepositInput(tx.Inputs[0].Deposit, ver.PayloadHash(), false))
 	e.finalize(ver)
 	return ver.PayloadHash(), privs
 }
@@ -189,24 +189,27 @@ type c31Spec struct {
 	nSigs int
 	extra int
 	tuned bool // extra given as "t<delta>": chosen so that the running envelope sum is threshold+delta
+	atCap bool // extra given as "m<delta>": chosen so that the envelope is TransactionMaximumSize-delta
 	delta int
 }
 
-func parseC31Spec(s string) c31Spec {
+func c31ParseSpec(s string) c31Spec {
 	p := strings.Split(s, ":")
 	if len(p) != 4 || len(p[0]) != 1 {
 		panic("harness: bad c31 spec " + s)
 	}
-	sp := c31Spec{kind: p[0][0], nIn: atoi(p[1]), nSigs: atoi(p[2])}
+	sp := c31Spec{kind: p[0][0], nIn: c31Atoi(p[1]), nSigs: c31Atoi(p[2])}
 	if strings.HasPrefix(p[3], "t") {
-		sp.tuned, sp.delta = true, atoi(p[3][1:])
+		sp.tuned, sp.delta = true, c31Atoi(p[3][1:])
+	} else if strings.HasPrefix(p[3], "m") {
+		sp.tuned, sp.atCap, sp.delta = true, true, c31Atoi(p[3][1:])
 	} else {
-		sp.extra = atoi(p[3])
+		sp.extra = c31Atoi(p[3])
 	}
 	return sp
 }
 
-func atoi(s string) int {
+func c31Atoi(s string) int {
 	n, err := strconv.Atoi(s)
 	if err != nil {
 		panic("harness: bad integer in op line: " + s)
@@ -237,7 +240,10 @@ func (e *c31Env) spend(sp c31Spec, cum int) *common.VersionedTransaction {
 		// envelope = payload(extra) + signatures; both parts are affine in their counts
 		probe := len(tx.AsVersioned().PayloadMarshal()) + c31SigBytes(sp.nIn, sp.nSigs)
 		sp.extra = p2p.TransportMessageMaxSize*2/3 + sp.delta - cum - probe
-		if sp.extra < 0 || sp.extra > 4*1024*1024-4096 {
+		if sp.atCap {
+			sp.extra = config.TransactionMaximumSize - sp.delta - probe
+		}
+		if sp.extra < 0 || sp.extra > common.ExtraSizeStorageCapacity {
 			sp.extra = 300
 		}
 	}
@@ -269,7 +275,7 @@ func (e *c31Env) spend(sp c31Spec, cum int) *common.VersionedTransaction {
 	}
 	wg.Wait()
 	if sp.kind == 'f' {
-		must(e.store.LockUTXOs(ver.Inputs, hash, false))
+		c31Must(e.store.LockUTXOs(ver.Inputs, hash, false))
 		e.finalize(ver)
 	}
 	return ver
@@ -305,19 +311,19 @@ func (e *c31Env) snapshot(refs, sig bool, ntx int) *common.Snapshot {
 func (e *c31Env) drainQueue() {
 	for {
 		txs, err := e.store.CacheRetrieveTransactions(common.SnapshotTransactionsMaximum)
-		must(err)
+		c31Must(err)
 		if len(txs) == 0 {
 			break
 		}
 	}
 	for _, n := range e.nbrs {
-		n.VerifDrain()
+		n.VerifC31Drain()
 	}
 }
 
 const c31RelayHeader = 65
 
-func b2i(b bool) int {
+func c31B2i(b bool) int {
 	if b {
 		return 1
 	}
@@ -342,7 +348,7 @@ func c31CaseOf(st *State) *c31Case {
 // mk <spec>: build one real transaction and put it on the cache queue
 func c31Mk(e *c31Env, st *State, t []string, res *Result) string {
 	c := c31CaseOf(st)
-	sp := parseC31Spec(t[1])
+	sp := c31ParseSpec(t[1])
 	i := len(c.txs)
 	ver := e.spend(sp, c.sumEnv)
 	valid := sp.kind != 'i'
@@ -357,12 +363,12 @@ func c31Mk(e *c31Env, st *State, t []string, res *Result) string {
 	c.index[ver.PayloadHash()] = i
 	c.sumPayload += payload
 	c.sumEnv += env
-	res.LeanIn = fmt.Sprintf("mk %d %d %d %d %d %d 0", i, payload, env, b2i(ver.IsSnapshotBatchable()), b2i(sp.kind == 'f'), b2i(valid))
+	res.LeanIn = fmt.Sprintf("mk %d %d %d %d %d %d 0", i, payload, env, c31B2i(ver.IsSnapshotBatchable()), c31B2i(sp.kind == 'f'), c31B2i(valid))
 	res.Tags = append(res.Tags, "mk:"+string(sp.kind))
 	if env-payload > 100000 {
 		res.Tags = append(res.Tags, "mk:envelope>>payload")
 	}
-	must(e.store.CacheQueueTransaction(ver))
+	c31Must(e.store.CacheQueueTransaction(ver))
 	res.Nontrivial = true
 	return "ok"
 }
@@ -382,14 +388,14 @@ func c31Run(e *c31Env, st *State, res *Result) string {
 		res.Tags = append(res.Tags, "run:envelope<T")
 	}
 	out, panicked, msg := Catch(func() string {
-		ret := e.node.VerifPopAndProcessCacheQueue()
+		ret := e.node.VerifC31PopAndProcessCacheQueue()
 		type group struct {
 			idx []int
 			len int
 		}
 		var groups []group
 		for _, nb := range e.nbrs {
-			for _, m := range nb.VerifDrain() {
+			for _, m := range nb.VerifC31Drain() {
 				if len(m) < 2 || m[0] != p2p.PeerMessageTypeTransactionBundle {
 					panic("harness: c31: unexpected message")
 				}
@@ -398,7 +404,7 @@ func c31Run(e *c31Env, st *State, res *Result) string {
 				for k := 0; k < int(m[1]); k++ {
 					size := int(binary.BigEndian.Uint32(rest[:4]))
 					tx, err := common.UnmarshalVersionedTransaction(rest[4 : 4+size])
-					must(err)
+					c31Must(err)
 					i, ok := c.index[tx.PayloadHash()]
 					if !ok {
 						panic("harness: c31: unknown transaction in bundle")
@@ -414,7 +420,7 @@ func c31Run(e *c31Env, st *State, res *Result) string {
 					res.PropKey = "C31:batch-accounts-unsigned-size"
 					res.PropDesc = fmt.Sprintf("bundle of %d transactions built by the batcher is %d bytes (+%d relay header) > TransportMessageMaxSize %d; payload sum %d, envelope sum %d",
 						len(g.idx), len(m), c31RelayHeader, p2p.TransportMessageMaxSize, c.sumPayload, c.sumEnv)
-					_, relayPanics, _ := Catch(func() string { e.peer.VerifBuildRelayMessage(e.funder, m); return "" })
+					_, relayPanics, _ := Catch(func() string { e.peer.VerifC31BuildRelayMessage(e.funder, m); return "" })
 					res.PropDesc += fmt.Sprintf("; buildRelayMessage panics=%v", relayPanics)
 					res.Tags = append(res.Tags, "run:oversize")
 				}
@@ -436,7 +442,7 @@ func c31Run(e *c31Env, st *State, res *Result) string {
 		var stale []string
 		for i, ver := range c.txs {
 			got, err := e.store.CacheGetTransaction(ver.PayloadHash())
-			must(err)
+			c31Must(err)
 			if got == nil {
 				stale = append(stale, strconv.Itoa(i))
 			}
@@ -459,7 +465,7 @@ func c31Build(e *c31Env, t []string, res *Result) string {
 			var txs []*common.VersionedTransaction
 			var envs []string
 			for i, a := range args {
-				ver := e.plain(atoi(a), uint64(i))
+				ver := e.plain(c31Atoi(a), uint64(i))
 				txs = append(txs, ver)
 				envs = append(envs, strconv.Itoa(len(ver.Marshal())))
 			}
@@ -471,29 +477,29 @@ func c31Build(e *c31Env, t []string, res *Result) string {
 		case "bundle":
 			txs, l := mk(t[3:])
 			lean = "build bundle " + l
-			return fmt.Sprintf("ok %d", len(p2p.VerifBuildTransactionsMessage(txs, p2p.PeerMessageTypeTransactionBundle)))
+			return fmt.Sprintf("ok %d", len(p2p.VerifC31BuildTransactionsMessage(txs, p2p.PeerMessageTypeTransactionBundle)))
 		case "challenge":
 			txs, l := mk(t[3:])
 			lean = "build challenge " + l
-			return fmt.Sprintf("ok %d", len(p2p.VerifBuildTransactionChallengeMessage(crypto.Hash{}, &crypto.CosiSignature{Mask: 1}, txs)))
+			return fmt.Sprintf("ok %d", len(p2p.VerifC31BuildTransactionChallengeMessage(crypto.Hash{}, &crypto.CosiSignature{Mask: 1}, txs)))
 		case "fullchallenge":
 			txs, l := mk(t[5:])
 			lean = fmt.Sprintf("build fullchallenge %s %s %s", t[2], t[3], l)
-			s := e.snapshot(t[2] == "1", true, atoi(t[3]))
-			return fmt.Sprintf("ok %d", len(p2p.VerifBuildFullChallengeMessage(s, &kp, &kp, txs)))
+			s := e.snapshot(t[2] == "1", true, c31Atoi(t[3]))
+			return fmt.Sprintf("ok %d", len(p2p.VerifC31BuildFullChallengeMessage(s, &kp, &kp, txs)))
 		case "announcement":
-			s := e.snapshot(t[2] == "1", false, atoi(t[3]))
-			return fmt.Sprintf("ok %d", len(p2p.VerifBuildAnnouncementMessage(s, kp, e.key())))
+			s := e.snapshot(t[2] == "1", false, c31Atoi(t[3]))
+			return fmt.Sprintf("ok %d", len(p2p.VerifC31BuildAnnouncementMessage(s, kp, e.key())))
 		case "commitment":
-			want := make([]crypto.Hash, atoi(t[2]))
-			return fmt.Sprintf("ok %d", len(p2p.VerifBuildCommitmentMessage(e.node, crypto.Hash{}, kp, want)))
+			want := make([]crypto.Hash, c31Atoi(t[2]))
+			return fmt.Sprintf("ok %d", len(p2p.VerifC31BuildCommitmentMessage(e.node, crypto.Hash{}, kp, want)))
 		case "response":
-			return fmt.Sprintf("ok %d", len(p2p.VerifBuildResponseMessage(crypto.Hash{}, (*[32]byte)(k[:]))))
+			return fmt.Sprintf("ok %d", len(p2p.VerifC31BuildResponseMessage(crypto.Hash{}, (*[32]byte)(k[:]))))
 		case "finalization":
-			s := e.snapshot(t[2] == "1", true, atoi(t[3]))
-			return fmt.Sprintf("ok %d", len(p2p.VerifBuildFinalizationMessage(s)))
+			s := e.snapshot(t[2] == "1", true, c31Atoi(t[3]))
+			return fmt.Sprintf("ok %d", len(p2p.VerifC31BuildFinalizationMessage(s)))
 		case "relay":
-			return fmt.Sprintf("ok %d", len(e.peer.VerifBuildRelayMessage(e.funder, make([]byte, atoi(t[2])))))
+			return fmt.Sprintf("ok %d", len(e.peer.VerifC31BuildRelayMessage(e.funder, make([]byte, c31Atoi(t[2])))))
 		}
 		panic("harness: unknown build " + t[1])
 	})
@@ -507,11 +513,12 @@ func c31Build(e *c31Env, t []string, res *Result) string {
 
 func c31Frame(e *c31Env, t []string, res *Result) string {
 	res.Tags = append(res.Tags, "frame:"+t[0])
-	client, err := p2p.NewQuicConsumer(context.Background(), e.relayer.VerifListenAddr())
-	must(err)
+	client, err := p2p.NewQuicConsumer(context.Background(), e.relayer.VerifC31ListenAddr())
+	c31Must(err)
 	defer client.Close("done")
 	port := func(a string) string { return a[strings.LastIndexByte(a, ':')+1:] }
-	local := port(client.VerifLocalAddr()) // the dialer is bound to the wildcard address: pair by port
+	local := port(client.VerifC31LocalAddr()) // the dialer is bound to the wildcard address: pair by port
+	cancel := make(chan struct{})
 	server := func() *p2p.QuicClient {
 		deadline := time.After(60 * time.Second)
 		for {
@@ -521,6 +528,8 @@ func c31Frame(e *c31Env, t []string, res *Result) string {
 					return s
 				}
 				s.Close("stale")
+			case <-cancel:
+				return nil
 			case <-deadline:
 				panic("harness: c31: loopback connection was not accepted")
 			}
@@ -535,10 +544,10 @@ func c31Frame(e *c31Env, t []string, res *Result) string {
 		}
 		s := server()
 		defer s.Close("done")
-		raw, err := s.VerifRawRead(p2p.TransportMessageHeaderSize + len(d))
-		must(err)
+		raw, err := s.VerifC31RawRead(p2p.TransportMessageHeaderSize + len(d))
+		c31Must(err)
 		back, err := func() (*p2p.TransportMessage, error) {
-			must(client.Send(d))
+			c31Must(client.Send(d))
 			return s.Receive()
 		}()
 		if err != nil || !bytes.Equal(back.Data, d) || int(back.Size) != len(d) {
@@ -547,15 +556,15 @@ func c31Frame(e *c31Env, t []string, res *Result) string {
 		res.Nontrivial = true
 		return "ok " + Hex(raw)
 	case "recv": // receiveWithLimit on arbitrary stream content followed by end of stream
-		limit, raw := atoi(t[1]), UnHex(t[2])
-		must(client.VerifRawWrite(append([]byte{}, raw...), true))
+		limit, raw := c31Atoi(t[1]), UnHex(t[2])
+		c31Must(client.VerifC31RawWrite(append([]byte{}, raw...), true))
 		if len(raw) == 0 {
 			// nothing written: the accepting side never sees the stream; the model says shortHeader
 			return "reject"
 		}
 		s := server()
 		defer s.Close("done")
-		m, err := s.VerifReceiveWithLimit(uint32(limit))
+		m, err := s.VerifC31ReceiveWithLimit(uint32(limit))
 		if err != nil {
 			return "reject"
 		}
@@ -565,7 +574,7 @@ func c31Frame(e *c31Env, t []string, res *Result) string {
 		res.Nontrivial = true
 		return "ok " + Hex(m.Data)
 	case "big": // Send/Receive of a large message
-		size := atoi(t[1])
+		size := c31Atoi(t[1])
 		d := make([]byte, size)
 		for i := 0; i < size; i += 4093 {
 			d[i] = byte(i)
@@ -578,12 +587,16 @@ func c31Frame(e *c31Env, t []string, res *Result) string {
 		if size >= 1 && size <= max { // the reader must drain while Send writes (flow control)
 			go func() {
 				s := server()
+				if s == nil {
+					return
+				}
 				defer s.Close("done")
 				m, err := s.Receive()
 				rc <- recvd{m, err}
 			}()
 		}
 		if err := client.Send(d); err != nil {
+			close(cancel)
 			if size >= 1 && size <= max {
 				res.PropKey, res.PropDesc = "C31:frame-roundtrip", fmt.Sprintf("Send fails on %d bytes: %v", size, err)
 			}
@@ -601,16 +614,16 @@ func c31Frame(e *c31Env, t []string, res *Result) string {
 		res.Nontrivial = true
 		return fmt.Sprintf("ok %d", len(got.m.Data))
 	case "bighdr": // header announcing size, no body: is a buffer of that size made?
-		limit, size := atoi(t[1]), atoi(t[2])
+		limit, size := c31Atoi(t[1]), c31Atoi(t[2])
 		hdr := []byte{p2p.TransportMessageVersion, 0, 0, 0, 0, 0}
 		binary.BigEndian.PutUint32(hdr[2:], uint32(size))
-		must(client.VerifRawWrite(hdr, true))
+		c31Must(client.VerifC31RawWrite(hdr, true))
 		s := server()
 		defer s.Close("done")
 		runtime.GC()
 		var m0, m1 runtime.MemStats
 		runtime.ReadMemStats(&m0)
-		_, err := s.VerifReceiveWithLimit(uint32(limit))
+		_, err := s.VerifC31ReceiveWithLimit(uint32(limit))
 		runtime.ReadMemStats(&m1)
 		if err == nil {
 			res.PropKey, res.PropDesc = "C31:oversize-accepted", fmt.Sprintf("header-only frame of %d accepted", size)
@@ -622,7 +635,7 @@ func c31Frame(e *c31Env, t []string, res *Result) string {
 			res.PropKey, res.PropDesc = "C31:oversize-alloc", fmt.Sprintf("frame header announcing %d bytes (limit %d) rejected only after allocating %d bytes", size, limit, alloc)
 		}
 		res.Nontrivial = true
-		return fmt.Sprintf("reject a=%d", b2i(big))
+		return fmt.Sprintf("reject a=%d", c31B2i(big))
 	}
 	panic("harness: unknown frame op " + t[0])
 }
@@ -694,6 +707,7 @@ func init() {
 			"non-trivial = the real code returned without panic/reject; distinct = distinct model input line",
 		Corpus: [][]string{
 			{"reset", "mk v:1:1:0", "mk i:2:2:10", "mk f:1:1:0", "mk v:2:40:300", "mk v:1:1:5000", "run"},
+			{"reset", "mk v:1:2:m0", "mk v:1:1:m1", "run"},
 			{"reset", "build bundle 256" + strings.Repeat(" 0", 256), "build bundle 255" + strings.Repeat(" 0", 255), "build bundle 0",
 				"build relay 33554432", "build relay 33554433", "build response", "build commitment 255", "build announcement 1 255",
 				"build finalization 1 255", "build fullchallenge 1 255 1 100"},
@@ -717,6 +731,9 @@ func init() {
 				}
 				return append(ops, "run")
 			case c < 9: // boundary: envelope sum around the threshold
+				if r.Chance(1, 8) { // one transaction at the admission cap, sent alone
+					return []string{"reset", fmt.Sprintf("mk v:1:%d:m%d", r.Range(1, 5), r.Intn(3)), "mk " + genSpec(r), "run"}
+				}
 				if tier == "quick" && !r.Chance(1, 4) {
 					return []string{"reset", "mk " + genSpec(r), "run"}
 				}
@@ -836,7 +853,7 @@ var c31Witness = []string{"reset",
 func c31SrcCheck(res *Result) string {
 	fset := token.NewFileSet()
 	f, err := parser.ParseFile(fset, filepath.Join(c31Repo(), "p2p", "quic.go"), nil, parser.SkipObjectResolution)
-	must(err)
+	c31Must(err)
 	str := func(n ast.Node) string {
 		var b bytes.Buffer
 		_ = printer.Fprint(&b, fset, n)
